@@ -43,11 +43,11 @@ var reviewedIndex = map[string]string{
 
 type panicClient struct {
 	BaseClient
-	p      *Program
-	pkg    *packages.Package
-	fn     string
-	seen   map[string]int
-	used   map[string]bool
+	p       *Program
+	pkg     *packages.Package
+	fn      string
+	seen    map[string]int
+	used    map[string]bool
 	inline  map[*types.Func]bool // helpers interpreted in place (second pass: obligations decided in their callers' contexts)
 	entered map[*ast.FuncDecl]int
 	failed  map[*ast.FuncDecl]bool
@@ -165,7 +165,9 @@ func (c *panicClient) Visit(e *Engine, st *State, n ast.Node) *State {
 	return nil
 }
 
-func (c *panicClient) report(e *Engine, x ast.Expr, ok bool, how string) { c.reportAs(e, x, x, ok, how) }
+func (c *panicClient) report(e *Engine, x ast.Expr, ok bool, how string) {
+	c.reportAs(e, x, x, ok, how)
+}
 
 // reportAs records the verdict for x; keyed (for the reviewed table) by its simplified form.
 func (c *panicClient) reportAs(e *Engine, x, simplified ast.Expr, ok bool, how string) {
@@ -216,10 +218,15 @@ func (c *panicClient) dischargeIndex(e *Engine, st *State, base, idx ast.Expr) (
 		return false, fmt.Sprintf("len(%s) >= %d is not known here", exprStr(base), v+1)
 	}
 	// i := len(e) - k held in a variable
-	if ki, kb := e.CanonSt(st, idx), e.CanonSt(st, base); ki.OK && kb.OK && strings.HasPrefix(ki.Key, "(len("+kb.Key+")-") && strings.HasSuffix(ki.Key, ")") {
-		if k, ok := parseInt(ki.Key[len("(len("+kb.Key+")-") : len(ki.Key)-1]); ok && k >= 1 {
-			if c.lenAtLeast(e, st, base, k) {
-				return true, "I-last: index len-k (held in a variable) with len >= k known"
+	if ki, kb := e.CanonSt(st, idx), e.CanonSt(st, base); ki.OK && kb.OK {
+		if sk, ok := e.SoftKey(st, idx); ok {
+			ki.Key = sk
+		}
+		if strings.HasPrefix(ki.Key, "(len("+kb.Key+")-") && strings.HasSuffix(ki.Key, ")") {
+			if k, ok := parseInt(ki.Key[len("(len("+kb.Key+")-") : len(ki.Key)-1]); ok && k >= 1 {
+				if c.lenAtLeast(e, st, base, k) {
+					return true, "I-last: index len-k (held in a variable) with len >= k known"
+				}
 			}
 		}
 	}
@@ -324,7 +331,11 @@ func (c *panicClient) dischargeSlice(e *Engine, st *State, x *ast.SliceExpr) (bo
 	}
 	// e[:n] with n := len(e) - k held in a variable
 	if x.Low == nil && x.High != nil {
-		if kh, kb := e.CanonSt(st, x.High), e.CanonSt(st, x.X); kh.OK && kb.OK && strings.HasPrefix(kh.Key, "(len("+kb.Key+")-") && strings.HasSuffix(kh.Key, ")") {
+		kh, kb := e.CanonSt(st, x.High), e.CanonSt(st, x.X)
+		if sk, ok := e.SoftKey(st, x.High); ok {
+			kh.Key = sk
+		}
+		if kh.OK && kb.OK && strings.HasPrefix(kh.Key, "(len("+kb.Key+")-") && strings.HasSuffix(kh.Key, ")") {
 			if k, ok := parseInt(kh.Key[len("(len("+kb.Key+")-") : len(kh.Key)-1]); ok && k >= 0 {
 				if c.lenAtLeast(e, st, x.X, k) {
 					return true, "I-last: drops the last k elements (count held in a variable) of a slice with len >= k"
